@@ -135,8 +135,8 @@ def _read_file(fmt, gtype, path, what):
     except M.Mismatch as e:
         raise Violation("{}: saved {} file: {} -- file: {!r}".format(what, fmt, e, shown[:400]))
     except Exception as e:      # noqa  (the third-party parsers fail in their own ways on a broken document)
-        raise Violation("{}: the saved {} file cannot be parsed ({}: {}) -- file: {!r}".format(
-            what, fmt, type(e).__name__, str(e)[:200], shown[:400]))
+        raise Violation("{}: the saved {} file cannot be parsed, neither by the harness's reader nor by the third-party one ({}: {}) "
+                        "-- file: {!r}".format(what, fmt, type(e).__name__, str(e)[:200], shown[:400]))
     return d, how
 
 
